@@ -171,6 +171,12 @@ def gen_edit(rng, st, prof):
             if rng.random() < 0.5:
                 q.append(Edit("write", p + b"/" + rng.choice(comps) + b"/" + rng.choice(comps), content(rng, prof)))
             return Edit("delete", p)
+    if r < 0.61 and prof.get("fd_conflicts", False) and st.tdirs:
+        # the other way round: a directory holding tracked files gives way to a file of the same name
+        d = rng.choice(st.tdirs)
+        if d in st.s.dirs:
+            prof.setdefault("queue", []).append(Edit("write", d, content(rng, prof)))
+            return Edit("rmtree", d)
     # new file, not colliding with an existing directory or below an existing file
     for _ in range(20):
         p = new_path(rng, prof)
